@@ -93,9 +93,11 @@ class ImportConverter:
                     )
                 )  # type: ignore
         elif isinstance(module, ast.ImportFrom):
-            if module.level == 0:
-                new_imports = [
-                    AbsoluteImport(
+            new_imports = []
+            for alias in module.names:
+                new_import: Import
+                if module.level == 0:
+                    new_import = AbsoluteImport(
                         module_name,
                         self._adjust_with_root_prefix(
                             module.module,  # type: ignore
@@ -103,15 +105,19 @@ class ImportConverter:
                             all_internal_modules,
                         ),
                     )
-                ]
-            else:
-                new_imports = []
-                for alias in module.names:
-                    new_imports.append(
-                        RelativeImport(
-                            module_name, module.module, alias.name, module.level
-                        )
+                else:
+                    new_import = RelativeImport(
+                        module_name, module.module, alias.name, module.level
                     )
+
+                # "from foo import bar" - bar could be a function/class in foo or a submodule of foo
+                # if it is a submodule, then this submodule is what is being imported
+                submodule = f"{new_import.importee()}.{alias.name}"
+                if module.module is not None and submodule in all_internal_modules:
+                    new_import = AbsoluteImport(module_name, submodule)
+
+                if not any(i.importee() == new_import.importee() for i in new_imports):
+                    new_imports.append(new_import)
 
         return new_imports
 
